@@ -34,7 +34,7 @@ def holder(sc):
     return cm
 
 
-def end_to_end(sc, which, cond, threads=1, mixed=False):
+def end_to_end(sc, which, cond, threads=1, mixed=False, layers=(0.0, 7000.0)):
     """on-axis sensor duplicating off-axis sensor `which` of a three-sensor system built by the real covariance builder
     (optionally by its multi-process path, optionally with a different wavelength per off-axis sensor)"""
     n = 4
@@ -48,7 +48,7 @@ def end_to_end(sc, which, cond, threads=1, mixed=False):
     off_wl = [500e-9, 900e-9, 1650e-9] if mixed else [600e-9] * 3
     wl = [off_wl[which]] + off_wl
     cm = sc.CovarianceMatrix(4, np.array(masks), 4.0, np.array([1.0] * 4), np.array(alt), np.array(pos), np.array(wl),
-                             2, np.array([0.0, 7000.0]), np.array([0.2, 0.35]), np.array([25.0, 30.0]), threads=threads)
+                             2, np.array(layers), np.array([0.2, 0.35]), np.array([25.0, 30.0]), threads=threads)
     cm.make_covariance_matrix()
     R = np.asarray(cm.make_tomographic_reconstructor(cond), float)
     ns = int(ring.sum())
@@ -183,6 +183,20 @@ def run(run):
                 run.violation("reconstructor:end-to-end-duplicate-sensor" + (":multiprocess-build" if threads > 1 else "")
                               + (":mixed-wavelengths" if mixed else ""), dict(duplicate_of=which, max_dev=dev),
                               dict(kind="e2e", which=which, threads=threads, mixed=mixed))
+    # the matrix the reconstructor is built from must be the configured atmosphere's: with two ELEVATED layers it is the sum of the two
+    # single-layer matrices (every layer sees every sensor displaced by its own altitude times the direction)
+    for which in (1, 2):
+        dev, cmo = end_to_end(sc, which, 0.0, 1, False, layers=(3000.0, 9000.0))
+        e2e.append(dict(duplicate_of=which, layers=[3000.0, 9000.0], max_dev=dev))
+        both = np.array(cmo.covariance_matrix, dtype=float)
+        parts = np.zeros_like(both)
+        for li, (alt, r0_, L0_) in enumerate(((3000.0, 0.2, 25.0), (9000.0, 0.35, 30.0))):
+            one = sc.CovarianceMatrix(cmo.n_wfs, cmo.pupil_masks, cmo.telescope_diameter, cmo.subap_diameters, cmo.gs_altitudes, cmo.gs_positions,
+                                      cmo.wfs_wavelengths, 1, np.array([alt]), np.array([r0_]), np.array([L0_]))
+            parts += np.asarray(one.make_covariance_matrix(), float)
+        if not dev <= 1e-3 or not np.allclose(both, parts, rtol=0, atol=2e-5 * np.abs(parts).max()):
+            run.violation("reconstructor:end-to-end-duplicate-sensor:two-elevated-layers", dict(duplicate_of=which, max_dev=dev,
+                          layer_additivity_err=float(np.abs(both - parts).max() / np.abs(parts).max())), dict(kind="e2e", which=which, layers=[3000.0, 9000.0]))
     # same object, science direction moved onto another off-axis sensor, same conditioning: the reconstructor must follow
     dev0, cmo = end_to_end(sc, 0, 0.01)
     gp = np.array(cmo.gs_positions, dtype=float)
@@ -241,6 +255,6 @@ def replay(run, case):
         if not ok:
             run.violation("reconstructor:dead-offaxis-slope(singular-block,conditioning-0)", dict(case=c), case)
     elif k == "e2e":
-        dev, _ = end_to_end(sc, case["which"], 0.0, case.get("threads", 1), case.get("mixed", False))
+        dev, _ = end_to_end(sc, case["which"], 0.0, case.get("threads", 1), case.get("mixed", False), tuple(case.get("layers", (0.0, 7000.0))))
         if not dev <= 1e-3:
             run.violation("reconstructor:end-to-end-duplicate-sensor", dict(max_dev=dev), case)
